@@ -116,34 +116,44 @@ def load_known():
         return json.load(f)
 
 
+def evaluate(prog, prop, tier="quick"):
+    """Run the property's rules over a loaded program; returns the Ctx (violations, instances, ...)."""
+    ctx = Ctx(prog, prop, tier)
+    mod = importlib.import_module("rules.%s" % prop)
+    for fn in mod.RULES:
+        try:
+            fn(ctx)
+        except core.AnchorMissing as e:
+            ctx.violations.append({
+                "property": prop, "rule": ctx.cur_rule or fn.__name__,
+                "key": "%s|ANCHOR-MISSING|%s" % (ctx.cur_rule or fn.__name__, e),
+                "message": "anchor missing (failing closed): %s" % e,
+                "where": None, "found": None, "rule_text": None})
+    if hasattr(mod, "FLOORS"):
+        for rid, n in mod.FLOORS.items():
+            ctx.floor(rid, n)
+    return ctx
+
+
 def run_property(prop, tier="quick", seed=0, replay=None):
     t0 = time.time()
     os.makedirs(os.path.join(EVID, "replay"), exist_ok=True)
     checker_errors = []
     ctx = None
     info = {}
+    selftests = None
     try:
         fdir, info = facts.ensure_facts()
         raw = facts.load_raw(fdir)
         prog = core.Program(raw)
-        ctx = Ctx(prog, prop, tier)
-        mod = importlib.import_module("rules.%s" % prop)
-        for fn in mod.RULES:
-            try:
-                fn(ctx)
-            except core.AnchorMissing as e:
-                ctx.violations.append({
-                    "property": prop, "rule": ctx.cur_rule or fn.__name__,
-                    "key": "%s|ANCHOR-MISSING|%s" % (ctx.cur_rule or fn.__name__, e),
-                    "message": "anchor missing (failing closed): %s" % e,
-                    "where": None, "found": None, "rule_text": None})
-        if hasattr(mod, "FLOORS"):
-            for rid, n in mod.FLOORS.items():
-                ctx.floor(rid, n)
+        ctx = evaluate(prog, prop, tier)
     except facts.FactsError as e:
         checker_errors.append("facts: %s" % e)
     except Exception:
         checker_errors.append(traceback.format_exc())
+    if tier == "thorough" and ctx is not None and not replay:
+        from . import selftest
+        selftests = selftest.run(prop)
 
     known = load_known()
     known_keys = {(k["property"], k["key"]): k for k in known.get("known", [])}
@@ -214,6 +224,7 @@ def run_property(prop, tier="quick", seed=0, replay=None):
             "notes": ctx.notes if ctx else [],
             "not_decided": nd,
             "known_findings_matched": [k.get("what") for _, k in knownhits],
+            "selftests": selftests,
         },
         "assumptions": (ctx.assumptions if ctx else []) + ["clauses not decided: " + "; ".join(nd)] if nd else (ctx.assumptions if ctx else []),
         "wall_s": round(time.time() - t0, 2),
@@ -226,6 +237,8 @@ def run_property(prop, tier="quick", seed=0, replay=None):
     os.replace(tmp, os.path.join(EVID, "%s.json" % prop))
     for l in lines:
         print(l)
+    for st in (selftests or []):
+        print("SELFTEST %s %s: %s" % (prop, st["name"], st["status"]))
     print("%s: %d rule instances, %d violations, %d known findings, %.1fs" % (
         prop, len(ctx.instances) if ctx else 0, len(new) + len(checker_errors), len(knownhits), time.time() - t0))
     return 1 if (new or checker_errors) else 0
